@@ -114,7 +114,8 @@ func RunCase(b *common.Build, st *Stats, c *Case, dir string) *Outcome {
 		r.out.Skipped = "no injectors"
 		return r.out
 	}
-	w, err := world.New(filepath.Join(dir, "w"), world.LayoutMod, "", b.MarkerGo, m.Files(true))
+	app, ext := m.Files(true)
+	w, err := world.New(filepath.Join(dir, "w"), world.LayoutMod, "", b.MarkerGo, app, ext...)
 	if err != nil {
 		r.out.Infra = "world: " + err.Error()
 		return r.out
